@@ -250,6 +250,10 @@ func (tp *TableParser) parseCell(cell tableCellXML) ParsedTableCell {
 		if span, err := strconv.Atoi(props.GridSpan.Val); err == nil && span > 0 {
 			parsed.ColSpan = span
 		}
+		// The span comes from the file and sizes the table grid
+		if parsed.ColSpan > maxGridSpan {
+			parsed.ColSpan = maxGridSpan
+		}
 	}
 
 	// Parse vertical merge
@@ -479,3 +483,6 @@ func parseTwipsOrPercent(value, widthType string) float64 {
 	}
 	return 0
 }
+
+// maxGridSpan bounds w:gridSpan: WordprocessingML tables have at most 63 columns.
+const maxGridSpan = 63
